@@ -623,6 +623,7 @@ pub fn run(ctx: &Ctx) -> Report {
     cases.push(Box::new(reentered_after_abrupt_finally_exit().into_iter()));
     cases.push(Box::new(loop_with_pair_cases().into_iter()));
     cases.push(Box::new(recursion_from_finally().into_iter()));
+    cases.push(Box::new(crate::c06::cases_for_c08().into_iter()));
     if !thorough {
         cases.push(Box::new(loop_try_try_nests().into_iter().map(move |n| mk("nest_depth3_loop_try_try", vec![n]))));
     }
@@ -648,7 +649,7 @@ pub fn run(ctx: &Ctx) -> Report {
     mcheck::fill_report(
         &mut report,
         &stats,
-        "every nest of the constructs {block, try/catch, try/finally, try/catch/finally (focus in body, catch or finally), while x1/x2, for, function/method/closure call} x 2 fillers up to the depth bound, with every leaf action {fall through, throw of 4 value kinds, 6 failing built-ins (one per error class), callee throwing at depth 1-3, return, break, continue}, and every sequential pair of nests (quick tier: depth 2, pairs of depth-1 nests, and the depth-3 nests that put a loop around two try-like constructs), plus 2 940 programs whose loop body holds a try-like construct around an inner loop followed by a second try-like construct with a leaving leaf, plus 30 programs in which a try statement inside a loop is entered again after its finally block was left by continue / break with an outcome waiting, run on the real interpreter and compared with M-eval's block trace and outcome. non-trivial = an exception reaches a handler, a finally block or the top level.",
+        "every nest of the constructs {block, try/catch, try/finally, try/catch/finally (focus in body, catch or finally), while x1/x2, for, function/method/closure call} x 2 fillers up to the depth bound, with every leaf action {fall through, throw of 4 value kinds, 6 failing built-ins (one per error class), callee throwing at depth 1-3, return, break, continue}, and every sequential pair of nests (quick tier: depth 2, pairs of depth-1 nests, and the depth-3 nests that put a loop around two try-like constructs), plus 2 940 programs whose loop body holds a try-like construct around an inner loop followed by a second try-like construct with a leaving leaf, plus C06's programs in which closures capture variables of a try statement that an exception, a return or a handled exception leaves (the handling function's variables stay intact when those closures are called later), plus 30 programs in which a try statement inside a loop is entered again after its finally block was left by continue / break with an outcome waiting, run on the real interpreter and compared with M-eval's block trace and outcome. non-trivial = an exception reaches a handler, a finally block or the top level.",
         json!({"nest_depth": if thorough { 3 } else { 2 }, "pairs": if thorough { "depth1 x depth2" } else { "depth1 x depth1" }, "constructs": CONS.len(), "leaves": LEAVES.len()}),
     );
     // trigger-free population reported separately
